@@ -182,6 +182,19 @@ def check(case, impl):
         entries = [e for e in entries if e["name"] not in shared]
         by_name = dict((e["name"], e) for e in entries)
         is_main = not (mode == "all" and pi == 1)
+        # the bindless flag: the program marks a resource array [[rssl::bindless]] exactly when it has 16 or more
+        # elements or no bound (harness/src/c05.rs render); the emitted declaration keeps the array, the flag says how
+        # it is bound
+        for k, dw in enumerate(decl_words):
+            f = dw.split(",")
+            if len(f) != 5 or not f[0].startswith("o:"):
+                continue
+            e = by_name.get(all_names[k])
+            if e is None or all_names[k] in shared:
+                continue
+            want_bindless = f[1] != "-" and (int(f[1]) >= 16 or int(f[1]) == 0)
+            if e["bindless"] != want_bindless:
+                return "%s is declared %s [[rssl::bindless]] (array length %s) but reported is_bindless=%s" % (all_names[k], "with" if want_bindless else "without", f[1], str(e["bindless"]).lower())
         if target.startswith("Hlsl"):
             decls, istructs = parse_hlsl(text)
             decls = dict((k, v) for k, v in decls.items() if k not in shared)
